@@ -10,6 +10,7 @@ from ..facts import callee, callee_resolved, op_place, strip_generics, is_user
 from ..flow import Defs, backward_slice, forward_derived, slice_aggregates, slice_calls
 
 LEVEL = 'other'
+TECHNIQUE = 'static analysis: abstract interpretation of every public Session operation on its MIR over a finite typestate, closed over all operation sequences against the hand-written store contract; plus typestate, provenance and who-may-call rules over the sync/finalize families; wire-key agreement'
 CLAUSE = ('every path that mutates the clean (as-loaded) session state re-tags it dirty before returning; Session::sync '
           'issues exactly the documented store operations per (state, id) cell and propagates their errors; the cookie '
           'carries the current id; only sync/force_load touch the store; over every sequence of session operations in a '
